@@ -6,6 +6,7 @@ import (
 	"fmt"
 	"math/big"
 	mrand "math/rand"
+	"os"
 	"runtime"
 	"testing"
 	"time"
@@ -104,8 +105,9 @@ func ExecChain(prop string) func(t *testing.T, pa any, col *kernel.Collector) []
 
 func execChain(prop string, p *Plan, col *kernel.Collector) []kernel.Violation {
 	ResetCrit()
+	defer InstallMapOrder(p.OrderSeed)()
 	mrand.Seed(int64(HashPlan(p) & 0x7fffffffffffffff))
-	if p.GoMaxProcs > 0 {
+	if p.GoMaxProcs > 0 && os.Getenv("VERIF_NO_GOMAXPROCS") == "" {
 		defer runtime.GOMAXPROCS(runtime.GOMAXPROCS(p.GoMaxProcs))
 	}
 	u, err := Build(&p.Recipe)
@@ -340,8 +342,8 @@ func (c *chainRun) checkC02(i int, op Op) {
 		return
 	}
 	max, maxID := new(big.Int), -1
-	for id := range c.accepted[op.Node] {
-		if u.TD[id].Cmp(max) > 0 {
+	for id := 0; id < len(u.Blocks); id++ { // ascending ids: the harness must not depend on map order
+		if c.accepted[op.Node][id] && u.TD[id].Cmp(max) > 0 {
 			max, maxID = u.TD[id], id
 		}
 	}
